@@ -222,15 +222,15 @@ def run(ctx):
     quick = ctx.tier == 'quick'
     ENG = eng = ctx.engine()
     nat = ctx.nat()
-    maxL = 2 if quick else 4
+    maxL = 2 if quick else 5
     items = []
     for pos in POSITIONS:
         for b in BACKENDS:
             if (pos in PG_ONLY and b != 'postgres') or pos in NOT_ON.get(b, ()): continue
             for L in range(1, maxL + 1):
-                if L > 2 and pos not in ('column', 'from_table', 'select_alias', 'enum_type_name'): continue
+                if L > 3 and pos not in ('column', 'from_table', 'select_alias', 'enum_type_name', 'index_name', 'create_table', 'cte_name', 'fk_create_name'): continue
                 items.append((pos, b, L))
-    ctx.bounds = {'identifier': 'L <= %d arbitrary Unicode scalar values (non-NUL) at one position; L <= 4 only at column/from_table/select_alias/enum_type_name in the thorough tier' % maxL,
+    ctx.bounds = {'identifier': 'L <= %d arbitrary Unicode scalar values (non-NUL) at one position; in the thorough tier L <= 3 at every position and L <= 5 at column / from_table / select_alias / enum_type_name / index_name / create_table / cte_name / fk_create_name' % maxL,
                   'positions': sorted(POSITIONS), 'backends': list(BACKENDS)}
     ctx.assumptions += ['NUL excluded (no engine accepts it inside an identifier)', 'other identifiers of the statement are concrete ASCII names',
                         'reference lexer: back-tick (MySQL) / double-quote (PostgreSQL, SQLite) identifiers with doubling of the quote character']
